@@ -114,103 +114,162 @@ def numberValid (first : Char) (base : Nat) (ds : List Char) : Bool :=
   else if first == '+' then !ds.isEmpty && natOfDigits 10 ds ≤ u64Max
   else natOfDigits 10 (first :: ds) ≤ u64Max
 
-def lexNumber (c : Char) (rest : List Char) : Out :=
-  let signOnly : Option TokenKind :=
+/-- the `+`/`-` look-ahead at the top of `Lexer::number` -/
+def signOnly (c : Char) (rest : List Char) : Option TokenKind :=
+  match rest with
+  | c2 :: _ => if !isAsciiDigit c2 then (if c == '+' then some .Plus else if c == '-' then some .Minus else none) else none
+  | [] => none
+
+/-- base detection: (base, consumed prefix, remaining) -/
+def numPrefix (c : Char) (rest : List Char) : Nat × List Char × List Char :=
+  if c == '0' then
     match rest with
-    | c2 :: _ => if !isAsciiDigit c2 then (if c == '+' then some .Plus else if c == '-' then some .Minus else none) else none
-    | [] => none
-  match signOnly with
+    | 'b' :: r => (2, ['b'], r)
+    | 'x' :: r => (16, ['x'], r)
+    | _ => (10, [], rest)
+  else (10, [], rest)
+
+def digitPred (base : Nat) : Char → Bool :=
+  if base == 2 then (fun d => d == '0' || d == '1') else if base == 10 then isAsciiDigit else isAsciiHex
+
+def lexNumber (c : Char) (rest : List Char) : Out :=
+  match signOnly c rest with
   | some k => { kind := k, text := [c], rest := rest }
   | none =>
-    let (base, pfx, rest1) : Nat × List Char × List Char :=
-      if c == '0' then
-        match rest with
-        | 'b' :: r => (2, ['b'], r)
-        | 'x' :: r => (16, ['x'], r)
-        | _ => (10, [], rest)
-      else (10, [], rest)
-    let p : Char → Bool :=
-      if base == 2 then (fun d => d == '0' || d == '1') else if base == 10 then isAsciiDigit else isAsciiHex
-    let (ds, rest2) := rest1.span p
-    let text := c :: (pfx ++ ds)
-    if numberValid c base ds then
-      { kind := if base == 2 then .BinaryIntVal else .IntVal, text := text, rest := rest2 }
+    let pr := numPrefix c rest
+    let ds := pr.2.2.takeWhile (digitPred pr.1)
+    let rest2 := pr.2.2.dropWhile (digitPred pr.1)
+    let text := c :: (pr.2.1 ++ ds)
+    if numberValid c pr.1 ds then
+      { kind := if pr.1 == 2 then .BinaryIntVal else .IntVal, text := text, rest := rest2 }
     else
       { kind := .Error, text := text, rest := rest2,
-        err := some (if base == 2 then "Invalid binary number" else if base == 10 then "Invalid number" else "Invalid hexadecimal number") }
+        err := some (if pr.1 == 2 then "Invalid binary number" else if pr.1 == 10 then "Invalid number" else "Invalid hexadecimal number") }
 
 /-! ### `Lexer::next_token` -/
 
-def punct (c : Char) : Option TokenKind :=
-  if c == '[' then some .LSquare else if c == ']' then some .RSquare
-  else if c == '{' then some .LBrace else if c == '}' then some .RBrace
-  else if c == '(' then some .LParen else if c == ')' then some .RParen
-  else if c == '<' then some .Less else if c == '>' then some .Greater
-  else if c == ':' then some .Colon else if c == ';' then some .Semi
-  else if c == ',' then some .Comma else if c == '=' then some .Equal
-  else if c == '?' then some .Question else none
+def punctTable : List (Char × TokenKind) := [
+  ('[', .LSquare), (']', .RSquare), ('{', .LBrace), ('}', .RBrace), ('(', .LParen), (')', .RParen),
+  ('<', .Less), ('>', .Greater), (':', .Colon), (';', .Semi), (',', .Comma), ('=', .Equal), ('?', .Question)]
+
+def punctLookup (tab : List (Char × TokenKind)) (c : Char) : Option TokenKind :=
+  match tab with
+  | [] => none
+  | (k, v) :: t => if k == c then some v else punctLookup t c
+
+def punct (c : Char) : Option TokenKind := punctLookup punctTable c
+
+/-! The arms of the `match self.s.eat()` in `next_token`, in source order.  Each arm gets the
+eaten char `c` and the remaining input `r` and answers `none` when its pattern/guard fails. -/
+
+def armWhitespace (c : Char) (r : List Char) : Option Out :=
+  if isWhitespace c then
+    some { kind := .Whitespace, text := c :: r.takeWhile isAsciiWhitespace, rest := r.dropWhile isAsciiWhitespace }
+  else none
+
+def armLineComment (c : Char) (r : List Char) : Option Out :=
+  match c, r with
+  | '/', '/' :: r1 =>
+    some { kind := .LineComment, text := '/' :: '/' :: r1.takeWhile (fun d => !isNewline d),
+           rest := r1.dropWhile (fun d => !isNewline d) }
+  | _, _ => none
+
+def armBlockComment (c : Char) (r : List Char) : Option Out :=
+  match c, r with
+  | '/', '*' :: r1 =>
+    let sp := splitAt2 '*' '/' r1
+    let e := eatIf2 '*' '/' sp.2
+    some { kind := .BlockComment, text := '/' :: '*' :: (sp.1 ++ e.1), rest := e.2 }
+  | _, _ => none
+
+def armDigit (c : Char) (r : List Char) : Option Out :=
+  if isAsciiDigit c then some (lexNumber c r) else none
+
+def armSign (c : Char) (r : List Char) : Option Out :=
+  if c == '-' || c == '+' then some (lexNumber c r) else none
+
+def armIdent (c : Char) (r : List Char) : Option Out :=
+  if isIdentStart c then
+    let w := c :: r.takeWhile isIdentCont
+    some { kind := (lookup Tables.keywords w).getD .Id, text := w, rest := r.dropWhile isIdentCont }
+  else none
+
+def armString (c : Char) (r : List Char) : Option Out :=
+  if c == '"' then
+    let sc := scanString r
+    some (match sc.2.2 with
+      | .closed => { kind := .StrVal, text := c :: sc.1, rest := sc.2.1 }
+      | .eol => { kind := .Error, text := c :: sc.1, rest := sc.2.1, err := some "End of line in string literal" }
+      | .eof => { kind := .Error, text := c :: sc.1, rest := sc.2.1, err := some "End of file in string literal" })
+  else none
+
+def armVarName (c : Char) (r : List Char) : Option Out :=
+  if c == '$' then
+    some (match r with
+      | d :: r1 =>
+        if isIdentStart d then
+          { kind := .VarName, text := c :: d :: r1.takeWhile isIdentCont, rest := r1.dropWhile isIdentCont }
+        else { kind := .Error, text := [c], rest := r, err := some "Invalid variable name" }
+      | [] => { kind := .Error, text := [c], rest := r, err := some "Invalid variable name" })
+  else none
+
+def armCode (c : Char) (r : List Char) : Option Out :=
+  match c, r with
+  | '[', '{' :: r1 =>
+    let sp := splitAt2 '}' ']' r1
+    let e := eatIf2 '}' ']' sp.2
+    some (if e.1.isEmpty then
+        { kind := .Error, text := '[' :: '{' :: (sp.1 ++ e.1), rest := e.2, err := some "Unterminated code block" }
+      else { kind := .CodeFragment, text := '[' :: '{' :: (sp.1 ++ e.1), rest := e.2 })
+  | _, _ => none
+
+def armBang (c : Char) (r : List Char) : Option Out :=
+  if c == '!' then
+    let t := r.takeWhile isAsciiAlpha
+    some (match lookup Tables.bangTable t with
+      | some k => { kind := k, text := c :: t, rest := r.dropWhile isAsciiAlpha }
+      | none => { kind := .Error, text := c :: t, rest := r.dropWhile isAsciiAlpha, err := some "Unknown operator" })
+  else none
+
+def armHash (c : Char) (r : List Char) : Option Out :=
+  if c == '#' then
+    let t := r.takeWhile isAlphabetic
+    some (match lookup Tables.prepTable t with
+      | some k => { kind := k, text := c :: t, rest := r.dropWhile isAlphabetic }
+      | none => { kind := .Paste, text := [c], rest := r })
+  else none
+
+def armPunct (c : Char) (r : List Char) : Option Out :=
+  match punct c with
+  | some k => some { kind := k, text := [c], rest := r }
+  | none => none
+
+def armDot (c : Char) (r : List Char) : Option Out :=
+  if c == '.' then
+    some (match r with
+      | '.' :: '.' :: r' => { kind := .DotDotDot, text := ['.', '.', '.'], rest := r' }
+      | '.' :: r' => { kind := .Error, text := ['.', '.'], rest := r', err := some "Invalid '..' punctuation" }
+      | _ => { kind := .Dot, text := [c], rest := r })
+  else none
+
+def arms : List (Char → List Char → Option Out) :=
+  [armWhitespace, armLineComment, armBlockComment, armDigit, armSign, armIdent, armString, armVarName,
+   armCode, armBang, armHash, armPunct, armDot]
+
+def firstArm (as : List (Char → List Char → Option Out)) (c : Char) (r : List Char) : Option Out :=
+  match as with
+  | [] => none
+  | a :: rest => match a c r with
+    | some o => some o
+    | none => firstArm rest c r
 
 def next (s : List Char) : Out :=
   match s with
   | [] => { kind := .Eof, text := [], rest := [] }
   | c :: r =>
-    if isWhitespace c then
-      let (t, r') := r.span isAsciiWhitespace
-      { kind := .Whitespace, text := c :: t, rest := r' }
-    else if c == '/' && r.head? == some '/' then
-      let r1 := r.tail
-      let (t, r') := r1.span (fun d => !isNewline d)
-      { kind := .LineComment, text := c :: '/' :: t, rest := r' }
-    else if c == '/' && r.head? == some '*' then
-      let r1 := r.tail
-      let (t, r2) := splitAt2 '*' '/' r1
-      let (e, r3) := eatIf2 '*' '/' r2
-      { kind := .BlockComment, text := c :: '*' :: (t ++ e), rest := r3 }
-    else if isAsciiDigit c then lexNumber c r
-    else if c == '-' then lexNumber '-' r
-    else if c == '+' then lexNumber '+' r
-    else if isIdentStart c then
-      let (t, r') := r.span isIdentCont
-      let w := c :: t
-      { kind := (lookup Tables.keywords w).getD .Id, text := w, rest := r' }
-    else if c == '"' then
-      match scanString r with
-      | (t, r', .closed) => { kind := .StrVal, text := c :: t, rest := r' }
-      | (t, r', .eol) => { kind := .Error, text := c :: t, rest := r', err := some "End of line in string literal" }
-      | (t, r', .eof) => { kind := .Error, text := c :: t, rest := r', err := some "End of file in string literal" }
-    else if c == '$' then
-      match r with
-      | d :: r1 =>
-        if isIdentStart d then
-          let (t, r') := r1.span isIdentCont
-          { kind := .VarName, text := c :: d :: t, rest := r' }
-        else { kind := .Error, text := [c], rest := r, err := some "Invalid variable name" }
-      | [] => { kind := .Error, text := [c], rest := r, err := some "Invalid variable name" }
-    else if c == '[' && r.head? == some '{' then
-      let r1 := r.tail
-      let (t, r2) := splitAt2 '}' ']' r1
-      let (e, r3) := eatIf2 '}' ']' r2
-      if e.isEmpty then { kind := .Error, text := c :: '{' :: (t ++ e), rest := r3, err := some "Unterminated code block" }
-      else { kind := .CodeFragment, text := c :: '{' :: (t ++ e), rest := r3 }
-    else if c == '!' then
-      let (t, r') := r.span isAsciiAlpha
-      match lookup Tables.bangTable t with
-      | some k => { kind := k, text := c :: t, rest := r' }
-      | none => { kind := .Error, text := c :: t, rest := r', err := some "Unknown operator" }
-    else if c == '#' then
-      let (t, r') := r.span isAlphabetic
-      match lookup Tables.prepTable t with
-      | some k => { kind := k, text := c :: t, rest := r' }
-      | none => { kind := .Paste, text := [c], rest := r }
-    else match punct c with
-      | some k => { kind := k, text := [c], rest := r }
-      | none =>
-        if c == '.' then
-          match r with
-          | '.' :: '.' :: r' => { kind := .DotDotDot, text := ['.', '.', '.'], rest := r' }
-          | '.' :: r' => { kind := .Error, text := ['.', '.'], rest := r', err := some "Invalid '..' punctuation" }
-          | _ => { kind := .Dot, text := [c], rest := r }
-        else { kind := .Error, text := [c], rest := r, err := some "Unexpected character" }
+    match firstArm arms c r with
+    | some o => o
+    | none => { kind := .Error, text := [c], rest := r, err := some "Unexpected character" }
 
 end Lex
 end Tg
